@@ -42,6 +42,23 @@ CHECKS.update({
         'note': 'trusted: RefParser in harness/bus_sim.h (eBUS L2 rules), virtual time model (symbol 4.2 ms, gaps either one symbol or >= 100 ms)',
         'technique': 'trace monitor: reference wire-log parser vs listener notifications on the real stack over a virtual bus, ASan/UBSan',
     },
+    'C02': {
+        'text': 'Requests are queued on the real handler over the virtual bus; the addressed participant, the echo and competing masters '
+                'misbehave per generated scripts. A byte-level wire-format monitor (escaping, CRC, single repeat after NAK, ACK iff response '
+                'CRC correct, final SYN) follows every own exchange, and a request must complete with RESULT_OK iff the monitor saw a complete '
+                'valid exchange (then slave bytes and the md_send report must agree).',
+        'design_ref': 'DESIGN.md section 2, C02',
+        'note': 'trusted: TxMonitor in harness/bus_mon.h and the bus/peer model in harness/bus_sim.h; stepped execution of run()',
+        'technique': 'online wire-format and result-truthfulness monitor over scripted peer/echo faults on the real stack, ASan/UBSan',
+    },
+    'C03': {
+        'text': 'Same executions judged by an entitlement monitor over the interleaved bus log: every host byte must be an arbitration byte '
+                'right after SYN for a pending request, an echo-verified continuation of a won exchange, or nothing; silence until the next '
+                'SYN after loss/echo mismatch/error; no transmission when read-only.',
+        'design_ref': 'DESIGN.md section 2, C03',
+        'note': 'trusted: TxMonitor entitlement rules (harness/bus_mon.h); collision model = wired AND of the two address bytes',
+        'technique': 'online entitlement automaton over the interleaved bus log of hostile traffic scenarios on the real stack, ASan/UBSan',
+    },
     'C05': {
         'text': 'The real DataField::read runs on every raw pattern of every 1-/2-byte type (exhaustive), all days of 2000-2099, all day '
                 'counts, boundary and random wide patterns, for several divisors and text/JSON output; an independent exact-arithmetic '
